@@ -468,7 +468,13 @@ func c02rKeys(m map[string]bool) (ks []string) {
 }
 
 func TestVerifC02Race(t *testing.T) {
-	r := vrt.Start("C02")
+	// The unit also serves C07 (a cached filtering result that is still in use
+	// is never overwritten): the driver then sets VERIF_PROP.
+	prop := "C02"
+	if p := os.Getenv("VERIF_PROP"); p != "" {
+		prop = p
+	}
+	r := vrt.Start(prop)
 	c02rInit()
 	debug.SetGCPercent(-1)
 
